@@ -620,10 +620,14 @@ func (g *gen) failingCase(variant int) {
 		k := 3 + g.r.Intn(2)
 		n := k*chunk + 1 + g.r.Intn(chunk-1)
 		opWrite("put", dir, name, false, chunk, -1, g.body(chunk+1+g.r.Intn(2*chunk)))
-		opWrite(m, dir, name, false, chunk, g.r.Intn(chunk), clean(n))                  // fails inside the first read
-		opWrite(m, dir, name, false, chunk, chunk+g.r.Intn(chunk), clean(n))            // one chunk uploaded
-		opWrite(m, dir, name, false, chunk, (k-1)*chunk+g.r.Intn(chunk+1), clean(n))    // several chunks uploaded
-		opWrite(m, dir, name, true, chunk, chunk*(1+g.r.Intn(k))+g.r.Intn(2), clean(n)) // as an append
+		opWrite(m, dir, name, false, chunk, g.r.Intn(chunk), clean(n))               // fails inside the first read
+		opWrite(m, dir, name, false, chunk, chunk+g.r.Intn(chunk), clean(n))         // one chunk uploaded
+		opWrite(m, dir, name, false, chunk, (k-1)*chunk+g.r.Intn(chunk+1), clean(n)) // several chunks uploaded
+		fa := chunk*(1+g.r.Intn(k)) + g.r.Intn(2)
+		if fa >= n { // a body that delivers all announced bytes has not failed (over a real connection it cannot)
+			fa = n - 1
+		}
+		opWrite(m, dir, name, true, chunk, fa, clean(n)) // as an append
 		opWrite(m, dir, name, true, chunk, -1, g.body(1+g.r.Intn(2*chunk)))
 	}
 }
